@@ -135,14 +135,14 @@ prop('C11', ['R-OPEN-TABLE', 'R-CLEAR-AGREE', 'R-GEOMETRY', 'R-ID', 'R-DIRTY-WRI
      'only in a node copy',
      'equality of every observable answer before/after')
 
-prop('C12', ['R-ID', 'R-DIRTY-WRITTEN'],
+prop('C12', ['R-ID', 'R-DIRTY-WRITTEN', 'R-STORAGE-IFACE'],
      'Who-may-call on the counter mutators, event-order dataflow in the allocator (increment, write-through, hand out), '
      'one allocation per request outside loops, header ensure/read obligations on open, rebuild on clear.',
      'single writer of the counter, write-through before the id is handed out, strictly increasing, one allocation per '
      'request shared by all attached prefixes, header preserved on reopen and rebuilt on clear',
      '32-bit overflow of the counter')
 
-prop('C13', ['R-WE-ATTACH', 'R-ANCESTOR-FLAG', 'R-SKIP-CHILDLESS'] + MONO,
+prop('C13', ['R-WE-ATTACH', 'R-ANCESTOR-FLAG', 'R-SKIP-CHILDLESS', 'R-FRESH'] + MONO,
      'Origin dataflow of every node that receives a webentity id; decision tables of both loops of add_lru (ancestor '
      'unmarking) with a linear-integer domain for `i < l - 1`; decision table of dfs_iter (shortcut prunes children only); '
      'who-may-call on the mark setters.',
@@ -157,7 +157,7 @@ prop('C14', ['R-READONLY', 'R-WRITE-API'],
      'no path from any query entry point to a mutation of either store (complete for the statement modulo A1-A2)',
      'nothing beyond A1-A2')
 
-prop('C15', ['R-STORAGE-IFACE', 'R-OPEN-TABLE', 'R-READ-RESETS'],
+prop('C15', ['R-STORAGE-IFACE', 'R-OPEN-TABLE', 'R-CLEAR-AGREE', 'R-READ-RESETS'],
      'Signature conformance of every storage call site against every back-end class the typed receiver can be (protocol '
      'sites), back-end/guard correlation for facade sites, return conventions and cursor protocol of read(); decision table '
      'of the constructor (the in-memory branch is a fresh index).',
@@ -165,7 +165,7 @@ prop('C15', ['R-STORAGE-IFACE', 'R-OPEN-TABLE', 'R-READ-RESETS'],
      'return conventions and the read-cursor protocol agree; a memory index is set up like a freshly created file index',
      'equality of answers for every history')
 
-prop('C16', ['R-FRESH', 'R-STACK-BLOCKS'],
+prop('C16', ['R-FRESH', 'R-STACK-BLOCKS', 'R-NO-STALE-CACHE'],
      'R-FRESH with every yield as an invalidation point; traversal stacks hold block numbers and re-read on pop; generators '
      'never write.',
      'every node cached across a yield point is refreshed before it is written; traversals keep block numbers and re-read',
@@ -179,14 +179,14 @@ prop('C17', ['R-VARIATIONS', 'R-LADDER-AGREE', 'R-ID'],
      'automatic creation always expands and attaches the class under one id',
      'closure of the expansion (an algebraic law over byte strings)')
 
-prop('C18', ['R-OPEN-TABLE', 'R-POINTEE-FIRST', 'R-GEOMETRY', 'R-NONE-CHECK'],
+prop('C18', ['R-OPEN-TABLE', 'R-POINTEE-FIRST', 'R-GEOMETRY', 'R-NONE-CHECK', 'R-STORAGE-IFACE'],
      'Decision table of the constructor (refusals), persisted-before-pointed typestate of every pointer store, block geometry, '
      'guard facts on every storage.read result.',
      'a partial block or a single file is refused with the library error, a pointer is never on disk before its pointee, all '
      'writes are whole blocks, a block a cut may have removed is never unpacked unchecked',
      'the behaviour at every cut of every history (crash points are not a syntactic object)')
 
-prop('C19', ['R-CHUNK-LAST', 'R-ALLOC', 'R-GEOMETRY', 'R-HEAD-REPOINT'],
+prop('C19', ['R-CHUNK-LAST', 'R-ALLOC', 'R-GEOMETRY', 'R-HEAD-REPOINT', 'R-LINK-PAIR', 'R-READ-RESETS', 'R-BST-AGREE'],
      'Reachability after the terminal chunk yield; who-may-allocate and decision tables of the insert path (found stems '
      'allocate and write nothing); block geometry; one stub per batch element.',
      'no block after the terminal chunk, allocation only on missing stems, re-adding takes the no-write path, one stub per link end',
